@@ -255,6 +255,20 @@ theorem model_size_error {τ κ : Type} (C : PCurve τ κ) (op : String) (hop : 
     · simp [h]
   rcases hop with rfl | rfl | rfl <;> simp [handleCurve, hp, hc]
 
+/-- **histories on shared precomputed lines are answered by value**: in the model's answer to a `hist` line the entry of a call is
+    `histCall` of that call's own arguments - it does not depend on the calls made before (or after) it on the same lines -/
+theorem hist_call_independent (r : ℕ) (b : List ℤ) (pre post : List (String × List ℤ)) (c : String × List ℤ) :
+    (histAnswers r b (pre ++ c :: post))[pre.length]? = some (histCall r b c.1 c.2) := by
+  simp [histAnswers]
+
+/-- … and the `cf` entry (PairingCheckFixedQ on shared lines) is `1:1` exactly when the abstract pairing product of THIS call's pairs
+    is the identity (`:1` = arguments unchanged) -/
+theorem hist_cf_iff (E : AbstractPairing G1 G2 GT r) (a b : List ℤ) :
+    E.pairProd (a.zip b) = 1 ↔ histCall r b "cf" a = "1:1" := by
+  rw [pairingCheck_iff_model E a b]
+  unfold histCall
+  cases (dot a b % (r : ℤ) == 0) <;> decide
+
 end model
 
 /-! ## final-exponentiation invariance under sub-field factors (fixed-Q variant) -/
